@@ -370,8 +370,10 @@ class RiskDifference:
             rd_ucl.append(ucl)
             rd_sd.append(sd)
 
-            fr_lower.append(ri*((a+b)/n) - (1-ri)*(1 - (a+b)/n) - ((a+b)/n))
-            fr_upper.append(ri*((a+b)/n) + (1 - (a+b)/n) - (1-ri)*(1 - (a+b)/n))
+            # Pr(Y=1, A != a): events among everyone not at this level (the reference group when exposure is binary)
+            y_other = df.loc[(df[exposure] != i) & (df[exposure].notnull()) & (df[outcome] == 1)].shape[0]
+            fr_lower.append(ri*((a+b)/n) - y_other/n - ((a+b)/n))
+            fr_upper.append(ri*((a+b)/n) + (1 - (a+b)/n) - y_other/n)
 
         # Getting the extent of missing data
         self._missing_ed = df.loc[(df[exposure].isnull()) & (df[outcome].isnull())].shape[0]
